@@ -248,6 +248,7 @@ public:
         clear_table();
         my_size.store(0, std::memory_order_relaxed);
         my_first_block.store(0, std::memory_order_relaxed);
+        my_segment_table_allocation_failed.store(false, std::memory_order_relaxed);
     }
 
     void clear_segments() {
@@ -282,6 +283,12 @@ public:
         // Extend segment table if an active table is an embedded one and the requested index is
         // outside it
         if (table == my_embedded_table && end_index > embedded_table_size) {
+            // Once the long table could not be allocated, growth calls that failed because of it have given up
+            // their segments. A table allocated later would contain these segments as holes that nobody
+            // fills, so the failure stays in force until the container is cleared.
+            if (my_segment_table_allocation_failed.load(std::memory_order_relaxed)) {
+                throw_exception(exception_id::bad_alloc);
+            }
             if (start_index <= embedded_table_size) {
                 // More than one thread can get here: the one that has assigned the first block and
                 // is in the process of allocating it now, and the one that saw the first block has
